@@ -740,6 +740,7 @@ pub fn overload_programs(max_ops: usize) -> Vec<Program> {
                 name: "collector".into(),
                 kind: ActorKind::Collector { atomic: false, pop_yields: 3 },
                 ops: vec![Op::Wait(40), Op::Cycle, Op::Signal(50), Op::Cycle],
+                after_exit_of: None,
             });
             out.push(p);
         }
@@ -921,6 +922,29 @@ pub fn teardown_programs() -> Vec<Program> {
 pub fn late_push_programs() -> Vec<Program> {
     let mut out = Vec::new();
     let mut idx = 0;
+    // pushed to a span whose parents mix sampled and unsampled traces (in both orders), and to an
+    // unsampled span next to a sampled one
+    for order in 0..3 {
+        idx += 1;
+        let mut ops = vec![Op::LcStart, lenter("a"), levent("a.e"), pop(), lenter("c"), pop(), Op::LcCollect { set: 0 }];
+        ops.push(root(10, "rs", 0x17A));
+        ops.push(root_full(11, "ru", 0x17B, 4, false, vec![]));
+        let parents: Vec<u32> = match order {
+            0 => vec![10, 11],
+            1 => vec![11, 10],
+            _ => vec![10],
+        };
+        ops.push(child_of(20, "m", &parents));
+        ops.push(Op::PushChildSpans { set: 0, slot: 20 });
+        if order == 2 {
+            ops.push(Op::PushChildSpans { set: 0, slot: 11 });
+        }
+        ops.push(Op::DropSet { set: 0 });
+        ops.push(finish(20));
+        ops.push(finish(11));
+        ops.push(finish(10));
+        out.push(Program::new(format!("C17-late#{idx}")).worker("A", ops));
+    }
     let shapes: Vec<Vec<Op>> = vec![
         vec![lenter("a"), levent("a.e"), lprop("a.k", "a.v"), pop()],
         vec![lenter("a"), lenter("b"), levent("b.e"), pop(), lprop("a.k", "a.v"), pop(), levent("top.e")],
@@ -1066,8 +1090,44 @@ pub fn many_ids_programs() -> Vec<Program> {
     one.push(finish(0));
     let two_a = vec![root(0, "r", 0x1D), sig(1), scope(0), Op::FillLocalSpans { leave: 5000 }, pop(), wait(2), finish(0)];
     let two_b = vec![wait(1), scope(0), Op::FillLocalSpans { leave: 5000 }, pop(), sig(2)];
+    // threads that follow one another (spawn, join, spawn): the second may inherit the first one's
+    // thread-local storage block, but not its ids
+    let seq_a = vec![root(0, "r", 0x1E), sig(1), wait(9), finish(0)];
+    let mk = |k: u32, last: bool| {
+        let mut v = vec![wait(1), scope(0), lenter(&format!("t{k}.a")), lenter(&format!("t{k}.b")), pop(), pop(), lchild(10 + k, &format!("t{k}.c")), finish(10 + k), pop()];
+        if last {
+            v.push(sig(9));
+        }
+        v
+    };
+    let successive = Program::new("C02-successive-threads#1")
+        .worker("A", seq_a)
+        .worker("T1", mk(1, false))
+        .worker_after("T2", 1, mk(2, false))
+        .worker_after("T3", 2, mk(3, false))
+        .worker_after("T4", 3, mk(4, true))
+        .collector(1, true, 0);
     vec![
         Program::new("C02-many-ids#1").worker("A", one).collector(1, true, 0),
         Program::new("C02-many-ids#2").worker("A", two_a).worker("B", two_b).collector(1, true, 0),
+        successive,
     ]
+}
+
+/// C18: a span, a child and a local span held open across a 1.1 s wait.
+pub fn long_span_programs() -> Vec<Program> {
+    let ops = vec![
+        root(0, "r", 0x18C),
+        child(1, "c", 0),
+        scope(0),
+        lenter("l"),
+        Op::BusyWait { micros: 1_100_000 },
+        levent("late"),
+        Op::Elapsed { slot: 1 },
+        pop(),
+        pop(),
+        finish(1),
+        finish(0),
+    ];
+    vec![Program::new("C18-long#1").worker("A", ops).collector(0, true, 0)]
 }
